@@ -142,7 +142,7 @@ def _limits(stack_mb, nofile):
 
 
 def run(build, args, env_extra=None, timeout=60, stdin_data=None, cwd=None, heap=None, raw_cmd=None,
-        want_log=True, max_out=8 << 20, stack_mb=None, nofile=None):
+        want_log=True, max_out=8 << 20, stack_mb=None, nofile=None, fsize_mb=1024):
     """Run chibi (or raw_cmd) from the given build; never raises on failure of the child."""
     r = Result()
     d = scratch_dir("p")
@@ -163,7 +163,7 @@ def run(build, args, env_extra=None, timeout=60, stdin_data=None, cwd=None, heap
                              preexec_fn=_limits(stack_mb, nofile) if (stack_mb or nofile) else None)
         try:
             # a broken tree can write without end: no file of the child (stdout, stderr, hook log) grows beyond 1 GB
-            resource.prlimit(p.pid, resource.RLIMIT_FSIZE, (1 << 30, 1 << 30))
+            resource.prlimit(p.pid, resource.RLIMIT_FSIZE, (fsize_mb << 20, fsize_mb << 20))
         except (OSError, ValueError):
             pass
         try:
